@@ -166,3 +166,29 @@ pub fn dominant_rare(len: usize, k: usize, placement: usize, occ: usize) -> Item
         ),
     }
 }
+
+/// Large inputs for the general-purpose compressors (a single `write` whose compressed output
+/// exceeds the encoders' internal 32 KiB buffers): incompressible bytes from a fixed LCG (a
+/// deterministic sequence, not a random source), text-like with period 61, a 4-symbol skew, zeros.
+pub const LARGE_CLASSES: &[&str] = &["lcg", "text61", "skew4", "zeros"];
+
+pub fn large(class: usize, len: usize) -> Item {
+    let bytes: Vec<u8> = match class {
+        0 => {
+            let mut s: u64 = 0x2545_f491_4f6c_dd1d;
+            (0..len)
+                .map(|_| {
+                    s = s.wrapping_mul(6364136223846793005).wrapping_add(1442695040888963407);
+                    (s >> 56) as u8
+                })
+                .collect()
+        }
+        1 => (0..len).map(|i| b"@SRR0:1:1101:1234:5678 GATTACAGATTACA IIIIHHHGGFFEEDD+ACGTNNacgt\n"[i % 61]).collect(),
+        2 => (0..len).map(|i| [65u8, 65, 65, 67, 65, 71, 65, 65, 84, 65, 65][(i * 7 + i / 11) % 11]).collect(),
+        _ => vec![0u8; len],
+    };
+    Item {
+        bytes,
+        expr: format!("corpus::large(/* {} */ {class}, {len})", LARGE_CLASSES[class]),
+    }
+}
